@@ -110,9 +110,36 @@ def run(ctx) -> Result:
                        ("ScoringScheme", "corankco.scoringscheme"), ("Element", "corankco.element"),
                        ("OrderedPartition", "corankco.partitioning.ordered_partition")):
         c = proj.cls(mod, cname)
+
+        def only_from_mutators(m, seen=None) -> bool:
+            """a private helper that every call site reaches from a documented mutator / constructor (directly or
+            through other such helpers) is part of that mutator"""
+            seen = seen or set()
+            if m.qualname in seen:
+                return True
+            seen.add(m.qualname)
+            if not m.name.startswith("_") or (m.name.startswith("__") and m.name.endswith("__")):
+                return False
+            callers = cg.callers_of(m)
+            if not callers:
+                return False
+            for cs in callers:
+                f2 = cs.caller
+                if f2.cls is not c:
+                    return False
+                lab2 = f2.name + (".setter" if f2.kind == "setter" else "")
+                if lab2 in DOCUMENTED_MUTATORS[cname]:
+                    continue
+                if not only_from_mutators(f2, seen):
+                    return False
+            return True
         for m in list(c.methods.values()) + list(c.setters.values()):
             label = m.name + (".setter" if m.kind == "setter" else "")
             if label in DOCUMENTED_MUTATORS[cname] or m.kind in ("staticmethod", "classmethod"):
+                continue
+            if only_from_mutators(m):
+                res.ok("I2", f"{cname}.{label}", m.loc(), "private helper reached only from documented mutators / the "
+                       "constructor: part of them", nontrivial=False)
                 continue
             res.saw(m)
             s = eff.summ[m.qualname]
